@@ -303,7 +303,29 @@ fn run_single_program(
             Ok(fds) => fds_stdin = Some(fds),
             Err(e) => {
                 println_stderr!("cicada: pipeline4: {}", e);
-                return 1;
+                // the command is not started: hand back the pipe ends it
+                // would have taken over and report the failure (returning a
+                // positive number would be taken for the pid of a child).
+                if idx_cmd < pipes_count {
+                    let fds = pipes[idx_cmd];
+                    libs::close(fds.1);
+                }
+                if idx_cmd > 0 {
+                    let fds = pipes[idx_cmd - 1];
+                    libs::close(fds.0);
+                }
+                if idx_cmd == pipes_count && options.capture_output {
+                    if let Some(fds) = fds_capture_stdout {
+                        libs::close(fds.0);
+                        libs::close(fds.1);
+                    }
+                    if let Some(fds) = fds_capture_stderr {
+                        libs::close(fds.0);
+                        libs::close(fds.1);
+                    }
+                }
+                *cmd_result = CommandResult::error();
+                return 0;
             }
         }
     }
